@@ -184,7 +184,10 @@ def run(ctx: Ctx) -> None:
         # what is selected does not decide whether the side output is written: no check at all, one check, everything ignored
         selections = [("no-check-selected", ["diag.py", "pkg", "--disable-all"]), ("no-check-selected-by-config", ["diag.py", "--config-file", "conf/none.toml"]),
                       ("one-check-selected", ["diag.py", "--disable-all", "--enable", "FURB123"]), ("every-finding-ignored", ["diag.py", "--ignore", "FURB123", "--ignore", "FURB114"]),
-                      ("category-disabled", ["diag.py", "pkg", "--disable", "#readability"]), ("quiet-no-check", ["clean.py", "--quiet", "--disable-all"])]
+                      ("category-disabled", ["diag.py", "pkg", "--disable", "#readability"]), ("quiet-no-check", ["clean.py", "--quiet", "--disable-all"]),
+                      # ... nor do the options that only add output
+                      ("debug", ["clean.py", "--debug"]), ("debug-with-diagnostics", ["diag.py", "pkg", "--debug"]), ("verbose-quiet", ["diag.py", "--verbose", "--quiet"]),
+                      ("debug-github", ["diag.py", "--debug", "--format", "github"]), ("sorted-by-error", ["diag.py", "pkg", "--sort", "error"])]
         scen = selections + [("config-elsewhere", ["diag.py", "--config-file", "conf/refurb.toml"]), ("clean", ["clean.py"]), ("diagnostics", ["diag.py", "pkg"]), ("missing-file", ["nope.py"]), ("syntax-error", ["syntax.py", "diag.py"]),
                 ("empty-dir", ["emptydir"]), ("invalid-plugin", ["diag.py", "--load", "badplugin"]), ("unimportable-plugin", ["diag.py", "--load", "no_such_plugin_mod"]),
                 ("deep", ["deep.py"]), ("recursion-limit", ["longsum.py", "diag.py"]), ("recursion-limit-last", ["clean.py", "longsum.py"]), ("same-file-twice", ["diag.py", "diag.py", "pkg/m.py"]), ("github-format", ["diag.py", "--format", "github"]), ("explain", ["--explain", "FURB123"]), ("verbose", ["clean.py", "--verbose", "--enable-all"])]
@@ -222,7 +225,9 @@ def run(ctx: Ctx) -> None:
     finally:
         shutil.rmtree(td, ignore_errors=True)
     ctx.exhaustive = True
-    ctx.resolve_broken({"no_temp_left": "temp-file-left:", "write_sites_confined": "tree-modified:"}, b.first_error if b else "")
+    side = ("temp-file-left:", "tree-modified:", "stats-missing:", "stats-malformed:")
+    ctx.resolve_broken({"no_temp_left": side, "write_sites_confined": side, "paths_within_fuel": side, "temp_exists_midway": side,
+                        "translate run_refurb effect skeleton": side}, b.first_error if b else "")
 
 
 def stats_ok(path: Path, scen: str) -> tuple[bool, str]:
